@@ -927,6 +927,7 @@ func run(c *vf.Ctx) {
 
 	realBlocks(c)
 	zeroish(c)
+	c.Set("violations_other_than_negative_index_signature", otherViol.Load())
 
 	c.Sample(map[string]any{"part_size": 3, "len": 10, "note": "4 parts, all 24 orders; hostile kinds: bytes-flip, aunt-swap, relabel-both, index-eq-total, dup-diffbytes, ..."})
 	c.Assume("crypto/sha256 and the RFC-6962-style reference Merkle tree written in the check are the hash reference")
